@@ -37,12 +37,18 @@ func LoadReplay(p string) {
 	var doc struct {
 		Model map[string]json.RawMessage `json:"model"`
 		Tier  string                     `json:"tier"`
+		Kind  string                     `json:"kind"`
+		Reach string                     `json:"reach"`
 	}
 	if err := json.Unmarshal(b, &doc); err != nil {
 		panic(err)
 	}
 	replay = doc.Model
 	counters = map[string]int{}
+	sampleTarget, sampleReached = "", false
+	if doc.Kind == "sample" {
+		sampleTarget = doc.Reach
+	}
 	if doc.Tier == "thorough" {
 		Tier = 1
 	} else if doc.Tier == "quick" {
@@ -131,8 +137,20 @@ func NotReproduced(why string) {
 	os.Exit(3)
 }
 
+// SampleDone ends the native run of a reachability sample: the recorded model fixes the inputs drawn up to the
+// Reach marker only; inputs drawn later default to zero and may fall outside an assumption, which says nothing.
+type SampleDone struct{}
+
+var (
+	sampleTarget  string
+	sampleReached bool
+)
+
 func Assume(c bool) {
 	if !c {
+		if sampleReached {
+			panic(SampleDone{})
+		}
 		NotReproduced("assumption false")
 	}
 }
@@ -146,6 +164,9 @@ func Assert(c bool, msg string) {
 func Reach(tag string) {
 	if replay != nil {
 		fmt.Println("VERIF-REACH:", tag)
+		if sampleTarget != "" && tag == sampleTarget {
+			sampleReached = true
+		}
 	}
 }
 func Unwind(n int)     {}
